@@ -36,7 +36,7 @@ ASSUMPTIONS = [
     "pure-Python ecdsa package, which does not normalise)",
 ]
 REQUIRED_LABELS = {t: ["areas>=2", "out-of-order", "zone-crossing", "multi-zone", "images>=2",
-                       "crlf", "start-record", "keys-generated:1", "full-zone-area"]
+                       "crlf", "start-record", "keys-observed", "full-zone-area"]
                    for t in ("quick", "thorough")}
 
 
@@ -135,11 +135,28 @@ def one_time_run(d, paths, tag):
     captured = {}
     orig_generate = ecdsa.SigningKey.generate
 
+    def note(sk):
+        ks = captured.setdefault("keys", [])
+        if all(sk.to_string() != x.to_string() for x in ks):
+            ks.append(sk)
+
     def generate(*a, **k):
         sk = orig_generate(*a, **k)
-        captured.setdefault("keys", []).append(sk)
+        note(sk)
         return sk
     ecdsa.SigningKey.generate = generate
+    # however the key came to be, it is seen when it signs
+    sign_methods = ["sign", "sign_deterministic", "sign_digest", "sign_digest_deterministic",
+                    "sign_number"]
+    orig_sign = {m: getattr(ecdsa.SigningKey, m) for m in sign_methods}
+
+    def wrap(m):
+        def signing(self, *a, **k):
+            note(self)
+            return orig_sign[m](self, *a, **k)
+        return signing
+    for m in sign_methods:
+        setattr(ecdsa.SigningKey, m, wrap(m))
     pub_path = os.path.join(d, "pub-%s.txt" % tag)
     before = snapshot(d)
     cwd = os.getcwd()
@@ -156,6 +173,8 @@ def one_time_run(d, paths, tag):
     finally:
         os.chdir(cwd)
         ecdsa.SigningKey.generate = orig_generate
+        for m in sign_methods:
+            setattr(ecdsa.SigningKey, m, orig_sign[m])
     after = snapshot(d)
     written = sorted(p for p in after if before.get(p) != after[p])
     return code, out + err.getvalue(), written, captured.get("keys", []), pub_path
@@ -246,7 +265,11 @@ def run_case(c):
         if sorted(written) != want_written:
             raise Violation("signonetime-writes-other-files", "%r vs %r" % (sorted(written),
                                                                             want_written))
-        labels.append("keys-generated:%d" % len(keys) if keys else "keys-not-observed")
+        labels.append("keys-observed" if keys else "keys-not-observed")
+        if len(keys) > 1:
+            raise Violation("several-keys-in-one-run", "%d signing keys were used in one run; "
+                            "the images are to be signed by the single key written alongside"
+                            % len(keys))
         with open(pub_path, "rb") as f:
             pub_hex = f.read()
         try:
